@@ -35,7 +35,7 @@ EXHAUSTIVE = {"quick": False, "thorough": False}
 
 PLAIN_TABLES = ["A", "B", "C", "D", "E", "F", "G"]
 HIDDEN_TABLE = "__H"
-LIT_FIELDS = ["name", "f0", "f1", "f2"]
+LIT_FIELDS = ["name", "f0", "f1", "f2", "_u1"]      # one leading underscore: visible
 RT_FIELDS = ["RecordType", "RecordTypeId", "record_type", "Record_Type_Id"]
 HIDDEN_FIELD = "__h"
 
@@ -98,6 +98,9 @@ def gen_recipe(rng):
     if rng.random() < 0.15:
         names[-1] = HIDDEN_TABLE
         feats.add("hidden_table")
+    elif rng.random() < 0.08:
+        names[-1] = "_T"                  # one leading underscore: a visible table
+        feats.add("underscore_table")
     rng.shuffle(names)
     shape, edges = gen_graph(rng, names)
     feats.add("shape_" + shape)
@@ -112,6 +115,8 @@ def gen_recipe(rng):
         if cnt == 0:
             feats.add("count0")
         nick = ("n" + t.strip("_").lower()) if rng.random() < 0.3 else None
+        if t == "_T":
+            nick = None
         tpls[t] = {"table": t, "nick": nick, "once": once, "count": cnt, "ukey": None, "fields": [], "friends": []}
         if once:
             feats.add("just_once")
@@ -275,7 +280,8 @@ def generate(rng, tier):
         if n == 3 and quick:
             sets = rng.sample(sets, 150)
         if n == 4:
-            sets = rng.sample(sets, 150 if quick else len(sets) // 2)
+            # thorough: every edge set over 4 tables (no self loops) for the first name order
+            sets = rng.sample(sets, 150) if quick else (sets if names[0] == "C" else rng.sample(sets, 1000))
         for edges in sets:
             cases.append(gen_sort_case(rng, names, edges))
             if edges and rng.random() < (0.5 if quick else 1.0):
@@ -303,7 +309,7 @@ def generate(rng, tier):
         srt = rng.sample(names, rng.randint(0, len(names)))
         cases.append({"kind": "free", "table": t, "deps": [[k, v] for k, v in deps.items()], "sorted": srt})
     # ---- (i) recipes
-    for _ in range(320 if quick else 15000):
+    for _ in range(450 if quick else 9000):
         cases.append(gen_recipe(rng))
     return cases
 
